@@ -8,7 +8,9 @@ import z3
 from . import src as S
 from .core import *  # noqa: F401,F403
 from .vals import *  # noqa: F401,F403
-from .vals import SEQ, MapSeqP, SetP, VMapSlot
+from .vals import SEQ, MapSeqP, SetP, VMapSlot, intern_atom
+
+CHR_ATOM = z3.Function("ChrAtom", z3.IntSort(), z3.IntSort())
 from .ev_expr import UNBOUND, BoolishV, StrListP, MAXCP
 from .ev_stmt import assigned_names, attr_path
 from .schema import SCHEMA, CLASS_MODULE, class_of_annotation
@@ -209,6 +211,9 @@ class CallMixin:
                 sub.entry = dict(sub.locals)
                 self.check_at(node, fr, "call:rule", fv)
                 return self.apply_contract(c, sub, node, fr)
+        if isinstance(fv, VObj) and fv.ref.startswith("global:") and fv.ref.split(".")[-1] in ("Scanned",):
+            # module-level namedtuple class
+            return self.construct(fv.ref[len("global:"):], args, kwargs, node, fr)
         raise Unsupported(f"call of {fv!r} at line {node.lineno}")
 
     # ------------------------------------------------------------------ builtins
@@ -493,6 +498,24 @@ class CallMixin:
             t = VTuple(vals)
             t.cls = "Rule"
             return t
+        if cls == "Delimiter":
+            # dataclass record stored in a record list: value tuple in schema order (the unused `level` default is dropped)
+            names = list(SCHEMA[cls])
+            given = dict(zip(names, args))
+            given.update({k: v for k, v in kwargs.items() if k in names})
+            if set(given) != set(names):
+                raise Unsupported("Delimiter(...) with missing fields")
+            t = VTuple([self.coerce(cls, n, given[n]) for n in names])
+            t.cls = cls
+            return t
+        if cls == "Scanned":
+            names = list(SCHEMA[cls])
+            given = dict(zip(names, args))
+            given.update(kwargs)
+            obj = VObj(self.new_ref("scanned"), cls)
+            for n in names:
+                self.heap[(obj.ref, n)] = self.coerce(cls, n, given[n])
+            return obj
         if cls in SCHEMA and cls in CLASS_MODULE:
             q = self.method_qualname(cls, "__init__")
             if q and q in self.registry and self.registry[q].inline:
@@ -500,6 +523,25 @@ class CallMixin:
                 self.call_pkg(q, [obj] + list(args), kwargs, node, fr)
                 return obj
         raise Unsupported(f"constructor {qual}")
+
+    def str_atom(self, v):
+        """a computed string stored into an opaque (atom) field: literals are interned, one-character strings and
+        concatenations go through uninterpreted constructors (nothing is claimed about their relation to literals)"""
+        from .ev_expr import CAT_ATOM
+
+        if v.kind == "lit":
+            return z3.IntVal(intern_atom(v.a))
+        if v.kind == "chr":
+            return CHR_ATOM(v.a)
+        if v.kind == "cat":
+            parts = [self.str_atom(x) for x in v.a]
+            if not parts:
+                return z3.IntVal(intern_atom(""))
+            acc = parts[0]
+            for x in parts[1:]:
+                acc = CAT_ATOM(acc, x)
+            return acc
+        raise Unsupported(f"string of kind {v.kind} stored into an opaque field")
 
     def coerce(self, cls, fname, v):
         ty = SCHEMA[cls][fname]
@@ -510,6 +552,8 @@ class CallMixin:
                 return VAtom("fn:" + str(v.name))
             if isinstance(v, VAtom):
                 return v
+            if isinstance(v, VStr):
+                return VAtom(self.str_atom(v))
             if isinstance(v, VObj) and v.cls.startswith("<"):
                 return VAtom(z3.Int("atom:" + v.ref))
             if isinstance(v, VList):
